@@ -248,6 +248,16 @@ impl Session {
                 w.flush()?;
                 Ok(())
             }
+            "WriteStreamSeek" => {
+                // the same, asking for the position (a seek inside the buffered data) between the write and the flush
+                let n = from_cps(&a["name"]);
+                let data = stream_bytes(a["data"].as_str().unwrap_or(""));
+                let mut w = self.p()?.write_stream(&n)?;
+                w.write_all(&data)?;
+                let _ = std::io::Seek::stream_position(&mut w)?;
+                w.flush()?;
+                Ok(())
+            }
             "RemoveStream" => {
                 let n = from_cps(&a["name"]);
                 self.p()?.remove_stream(&n)
